@@ -31,7 +31,12 @@ EXTRA_INPUTS = [
     ("fail_message", _p("fail_rtf_key.xsl"), _p("s1.xml")),
     ("fail_xpath", _p("fail_rtf_xpath.xsl"), _p("s1.xml")),
     ("transform", _p("ok_rtf_key.xsl"), _p("s1.xml")),
+    ("transform", _p("ext_ns_once.xsl"), _p("s1.xml")),
+    ("compile", _p("ext_ns_twice.xsl"), _p("s1.xml")),
 ]
+
+# inputs in the class of a known finding of the no-injection balance run: {stylesheet basename: finding id}
+KNOWN_UNBALANCED = {"ext_ns_twice.xsl": "K-new-7"}
 
 
 def build(variant="plain"):
@@ -378,6 +383,10 @@ def check(ctx, known, widen=False, exe=None):
             return []
         ctx.cov["evaluations"] += 1
         bal = (c.get("outstanding"), c.get("foreign"), c.get("double"))
+        kid_bal = KNOWN_UNBALANCED.get(os.path.basename(xsl))
+        if bal != (0, 0, 0) and kid_bal in known and bal[1:] == (0, 0):
+            hits[kid_bal] = hits.get(kid_bal, 0) + 1
+            return []
         if bal != (0, 0, 0):
             new.append({"case": replay_line(scenario, xsl, xml, "count", 0),
                         "what": "not balanced without any refusal: outstanding=%s foreign=%s double=%s after ~XalanTransformer %s" % (bal + (c.get("badfree") or "",))})
@@ -456,6 +465,15 @@ def replay(lines, exe=None):
     rc = 0
     for ln in lines:
         t = ln.split("#")[0].split()
+        if len(t) >= 4 and t[0] == "multi":
+            mexe, ok, log = core.build_harness("mem_multi", "plain", extra_flags=["-rdynamic"])
+            res = run_multi(mexe, t[1], _p(t[2]), _p(t[3]))
+            print(res.get("head"), [dict((k, m[k]) for k in ("name", "allocs", "outstanding", "foreign", "double", "cross")) for m in res["mgrs"]])
+            bad, _ = multi_failures(res, t[2].startswith("fail_"), None, {})
+            for b in bad:
+                print("#   FAILS: " + b)
+                rc = 1
+            continue
         if len(t) < 6:
             continue
         _, scenario, xsl, xml, mode, k = t[:6]
@@ -496,3 +514,108 @@ def regen_sites(out=None):
             if classify(r)[0] != "ok":
                 res.setdefault(site_key(r, xsl, mode), (scenario, os.path.basename(xsl), mode, r["k"], r.get("sig")))
     return res
+
+
+# ---------------------------------------------------------------------------------------------------------
+# objects built on OTHER managers than the transformer's (harness/mem_multi.cpp)
+
+MULTI_SCENARIOS = ["xerceswrap", "xerceswrap_rev", "stwrap", "compiled_other", "io_objects", "mixed"]
+MULTI_FAIL = ["fail_message.xsl", "fail_xpath.xsl", "fail_rtf_key.xsl", "fail_rtf_xpath.xsl"]
+
+
+def run_multi(exe, scenario, xsl, xml, env=None, timeout=120):
+    p = subprocess.run([exe, scenario, xsl, xml], stdout=subprocess.PIPE, stderr=subprocess.PIPE,
+                       universal_newlines=True, errors="replace", timeout=timeout, env=env, cwd=CORPUS)
+    res = {"rc_proc": p.returncode, "mgrs": [], "sites": [], "head": None, "err": (p.stderr or "")[-300:]}
+    for ln in p.stdout.splitlines():
+        if ln.startswith("scenario="):
+            res["head"] = _kv(ln)
+        elif ln.startswith("MGR "):
+            d = _kv(ln)
+            d["name"] = ln.split()[1]
+            for k in ("allocs", "outstanding", "foreign", "double", "intransform"):
+                d[k] = int(d.get(k, -1))
+            res["mgrs"].append(d)
+        elif ln.startswith("SITE "):
+            t = ln.split(None, 2)
+            res["sites"].append((t[1], t[2] if len(t) > 2 else "?"))
+        elif ln.startswith("EXCEPTION"):
+            res["exception"] = ln
+    return res
+
+
+def multi_line(scenario, xsl, xml, note=""):
+    return "multi %s %s %s%s" % (scenario, os.path.basename(xsl), os.path.basename(xml), ("   # " + note) if note else "")
+
+
+def multi_failures(res, want_fail, ref_hash, allowed):
+    """-> (violations [text], census deviations [text]) of one run of harness/mem_multi.cpp"""
+    bad, census = [], []
+    h = res.get("head")
+    if h is None or res["rc_proc"] != 0:
+        return ["the harness ended with status %s without a result (%s %s)" % (res["rc_proc"], res.get("exception", ""), res["err"][-160:])], []
+    rc = int(h.get("rc", -99))
+    if (rc != 0) != want_fail:
+        bad.append("unexpected API status %d" % rc)
+    if not want_fail and ref_hash is not None and h.get("outhash") != ref_hash:
+        bad.append("the output differs from the output of the same transformation with everything on one manager")
+    for m in res["mgrs"]:
+        if m["outstanding"] != 0:
+            bad.append("manager '%s': %d blocks still outstanding after its owner was destroyed" % (m["name"], m["outstanding"]))
+        if m["foreign"] != 0:
+            bad.append("manager '%s' was asked %d times to deallocate a block it did not hand out (first one belongs to '%s')" % (m["name"], m["foreign"], m.get("cross")))
+        if m["double"] != 0:
+            bad.append("manager '%s': %d double frees" % (m["name"], m["double"]))
+    for name, sig in res["sites"]:
+        if not any(f.rsplit("::", 1)[0] in allowed.get(name, ()) for f in sig.split("<")):
+            census.append("manager '%s' served an allocation for the running transformation outside its owner's classes: %s" % (name, "<".join(sig.split("<")[:4])))
+    return bad, census
+
+
+def check_multi(ctx, known, exe=None):
+    """Scenarios in which the objects handed to the transformer live on other managers than the transformer's.
+    Returns new failures [dict(case, what)]."""
+    new = []
+    if exe is None:
+        exe, ok, log = core.build_harness("mem_multi", "plain", extra_flags=["-rdynamic"])
+        if not ok:
+            ctx.broken.append("oracle: harness/mem_multi.cpp does not compile against the working tree: " + log[-400:])
+            return new
+    allowed = {}
+    for key in load_sites():
+        if key.startswith("other@"):
+            _, name, cls = key.split("@", 2)
+            allowed.setdefault(name, set()).add(cls)
+    pool = list(POOL) if ctx.thorough else ctx.rng.sample(list(POOL), 2)
+    jobs = []
+    for xsl, xml in pool:
+        for sc in MULTI_SCENARIOS:
+            jobs.append((sc, xsl, xml, False))
+    for f in MULTI_FAIL:
+        for sc in (MULTI_SCENARIOS if ctx.thorough else ["xerceswrap", "stwrap", "compiled_other"]):
+            jobs.append((sc, _p(f), _p("s1.xml"), True))
+    jobs.append(("function", _p("ext_fn.xsl"), _p("s1.xml"), False))
+    refs = {}
+    for xsl, xml in set((j[1], j[2]) for j in jobs if not j[3] and j[0] != "function"):
+        r = run_multi(exe, "plain", xsl, xml)
+        refs[(xsl, xml)] = (r.get("head") or {}).get("outhash")
+        jobs.append(("plain", xsl, xml, False))
+    census_dev = set()
+    with ThreadPoolExecutor(max_workers=core.NPROC) as ex:
+        results = list(ex.map(lambda j: run_multi(exe, j[0], j[1], j[2]), jobs))
+    for (sc, xsl, xml, want_fail), res in zip(jobs, results):
+        if res["rc_proc"] == 127 or "shared libraries" in res["err"]:
+            core.build_lib("plain")
+            time.sleep(2)
+            res = run_multi(exe, sc, xsl, xml)
+        ctx.cov["evaluations"] += 1
+        ctx.count("multi:" + sc)
+        # (the reference run has no extension function installed: nothing to compare the function scenario with)
+        bad, census = multi_failures(res, want_fail, None if sc == "function" else refs.get((xsl, xml)), allowed)
+        for b in bad:
+            new.append({"case": multi_line(sc, xsl, xml), "what": b})
+        census_dev.update(census)
+    if census_dev:
+        ctx.broken.append("tie: allocations on behalf of a running transformation served by a manager other than the transformer's, outside the census of corpus/C19/known_sites.txt: " + "; ".join(sorted(census_dev))[:700])
+    ctx.notes["multi_runs"] = len(jobs)
+    return new
